@@ -322,6 +322,7 @@ inductive VOp
   | get (i : Int)
   | set (i : Int) (v : Int)
   | len
+  | reserve (n : Int)
   deriving DecidableEq, Repr
 
 /-- what one call shows to the program -/
@@ -342,6 +343,14 @@ def tsVecStep (t : List Int) : VOp → List Int × VRes
   | .set i v =>
     if i < 0 ∨ i ≥ t.length then (t, .fail "Vec index out of bounds") else (t.set i.toNat v, .unit)
   | .len => (t, .val t.length)
+  | .reserve _ => (t, .unit)                 -- `(_t, _n) => 0`
+
+/-- `Vec.capacity` in TypeScript is the length (`lir.rs:617-619`); the specification calls the
+value an implementation hint, so it is modelled but not compared between the back ends. -/
+def tsCapacity (t : List Int) : Nat := t.length
+
+/-- `Vec.of(v)`: `[v]` -/
+def tsVecOf (v : Int) : List Int := [v]
 
 /-- WebAssembly runtime (`libsam.wat:270-374`): `{data : array (ref null eq), length : i32}` -/
 structure WVec where
@@ -384,6 +393,62 @@ def wasmVecStep (w : WVec) : VOp → WVec × VRes
     if i < 0 ∨ i ≥ w.len then (w, .fail TRAP)
     else ({ w with data := w.data.set i.toNat (some (i31wrap v)) }, .unit)
   | .len => (w, .val w.len)
+  | .reserve n => (wReserve w n.toNat, .unit)   -- `i32.le_s min cap`: a negative `min` never grows
+
+/-- `$__Vec$capacity`: length of the backing array -/
+def wasmCapacity (w : WVec) : Nat := w.data.length
+
+/-- `$__Vec$of` with the argument boxed at the call site -/
+def wasmVecOf (v : Int) : WVec := ⟨[some (i31wrap v)], 1⟩
+
+/-- `$__Vec$withCapacity`; a negative capacity is a huge unsigned array size (engine trap): `none` -/
+def wasmVecWithCapacity (n : Int) : Option WVec :=
+  if n < 0 then none else some ⟨List.replicate n.toNat none, 0⟩
+
+/-! ### `Vec.eq` -/
+
+/-- the `for` loop of the TypeScript `Vec.eq` after the length guard (`lir.rs:648-652`) -/
+def tsVecEqLoop : List Int → List Int → Bool
+  | x :: xs, y :: ys => if x ≠ y then false else tsVecEqLoop xs ys
+  | _, _ => true
+
+/-- TypeScript `Vec.eq`; `same` = both arguments are the same object (`a === b`) -/
+def tsVecEq (same : Bool) (a b : List Int) : Int :=
+  if same then 1 else if a.length ≠ b.length then 0 else b2i (tsVecEqLoop a b)
+
+/-- the loop of `$__Vec$eq` (`libsam.wat:352-374`): `ref.eq` on the first `n` slots -/
+def wasmVecEqLoop : Nat → List (Option Int) → List (Option Int) → Bool
+  | 0, _, _ => true
+  | n + 1, x :: xs, y :: ys => if x ≠ y then false else wasmVecEqLoop n xs ys
+  | _ + 1, _, _ => true    -- unreachable when `len ≤ capacity` on both sides
+
+def wasmVecEq (same : Bool) (a b : WVec) : Int :=
+  if same then 1 else if a.len ≠ b.len then 0 else b2i (wasmVecEqLoop a.len a.data b.data)
+
+/-! ### `Str.concat`, string `==` (strings = lists of code units) -/
+
+/-- one copy loop of `$__Str$concat` (`libsam.wat:225-262`): `arr[off + i] := src[i]` -/
+def copyLoop : List Nat → Nat → List Nat → List Nat
+  | arr, _, [] => arr
+  | arr, off, c :: cs => copyLoop (arr.set off c) (off + 1) cs
+
+/-- `$__Str$concat`: new zeroed array of the total length, two copy loops -/
+def wasmStrConcat (a b : List Nat) : List Nat :=
+  copyLoop (copyLoop (List.replicate (a.length + b.length) 0) 0 a) a.length b
+
+/-- TypeScript `([, a], [, b]) => [1, a + b]` -/
+def tsStrConcat (a b : List Nat) : List Nat := a ++ b
+
+/-- loop of `$__Str$eq` (`libsam.wat:10-29`) after the reference and length tests -/
+def wasmStrEqLoop : List Nat → List Nat → Bool
+  | x :: xs, y :: ys => if x ≠ y then false else wasmStrEqLoop xs ys
+  | _, _ => true
+
+def wasmStrEq (same : Bool) (a b : List Nat) : Int :=
+  if same then 1 else if a.length ≠ b.length then 0 else b2i (wasmStrEqLoop a b)
+
+/-- TypeScript `Number(a[1] == b[1])`: JS string equality -/
+def tsStrEq (a b : List Nat) : Int := b2i (decide (a = b))
 
 /-- run a call sequence until the first failing call; results in order -/
 def tsVecRun : List Int → List VOp → List VRes
